@@ -435,6 +435,33 @@ func c16(c *Ctx) {
 		}
 	})
 
+	c.Rule("C16.R6", "transport errors do not crash a sender and a delivered request is not reported as failed: the response of client.Do is touched only after err == nil was established; no deferred function rewrites an attempt's result; every retry loop ends when the backoff window is exhausted", 6, func(r *Rule) {
+		n := 0
+		for _, fn := range w.ModuleFuncs() {
+			p := fnPkgPath(fn)
+			if !strings.Contains(p, "/pkg/backends/") {
+				continue
+			}
+			if k := respAfterErrCheck(r, fn); k > 0 {
+				n += k
+				c.SawFunc(FuncName(fn))
+			}
+		}
+		for _, g := range attemptClosures(w) {
+			if strings.Contains(fnPkgPath(g), "/pkg/backends/") {
+				attemptResultNotRewritten(r, g)
+			}
+		}
+		nr := 0
+		for _, fn := range w.ModuleFuncs() {
+			if strings.Contains(fnPkgPath(fn), "/pkg/backends/") {
+				nr += retryWindowRule(r, fn)
+			}
+		}
+		r.Check("backends:retry-loops", nr >= 4, token.NoPos, fmt.Sprintf("%d backoff-driven retry loops in the HTTP backends (datadog, influxdb, newrelic, otlp)", nr))
+		r.Check("backends:do-sites", n >= 4, token.NoPos, fmt.Sprintf("%d client.Do call sites in the HTTP backends", n))
+	})
+
 	c.Rule("C16.R5", "request semaphores are released on every path after being acquired", 4, func(r *Rule) {
 		// otlp: send = acquire, receive = release, both in one function
 		for _, name := range []string{"(*Backend).postMetrics", "(*Backend).SendEvent"} {
